@@ -213,3 +213,89 @@ Proof.
   intros Hl Hne Hw. apply non_interference_same_start with (K1 := Kcms key1) (K2 := Kcms key2); [|exact Hw].
   apply cms_keys_disjoint; assumption.
 Qed.
+
+(* ---------- HyperLogLog and Bloom: every call touches the one data key only ---------- *)
+From GX.Model Require Import RedisHLL RedisBloom.
+
+Definition Kone (key : bytes) : keyset := fun k => k = key.
+
+Lemma keys_disjoint_one k1 k2 : k1 <> k2 -> forall k, Kone k1 k -> Kone k2 k -> False.
+Proof. unfold Kone. intros Hne k -> E. exact (Hne E). Qed.
+
+Section HLLLocal.
+Variable hic : N -> bytes -> N * N.
+Definition op_hll_update (h : rhll) (x : bytes) : op (outcome unit) :=
+  fun s => let r := rhll_update hic s h x in (snd r, fst r).
+Definition op_hll_regs (h : rhll) : op (option (list N)) := fun s => (s, rhll_regs s h).
+
+Theorem hll_update_local h x : local (Kone (rh_key h)) (op_hll_update h x).
+Proof.
+  split.
+  - intros s k Hk. unfold op_hll_update, rhll_update. cbn [fst snd].
+    destruct (r_lindex s (rh_key h) _) as [cur|]; [|reflexivity].
+    destruct (lua_tonum cur) as [c|]; [|reflexivity].
+    destruct (r_lset s (rh_key h) _ _) as [s'|] eqn:E; [|reflexivity]. cbn [snd].
+    apply (r_lset_frame _ _ _ _ _ E). intros Ek. apply Hk. exact Ek.
+  - intros s s' Ha. unfold op_hll_update, rhll_update. cbn [fst snd].
+    assert (Hk : Kone (rh_key h) (rh_key h)) by reflexivity.
+    rewrite (r_lindex_agree _ s s' _ _ Ha Hk).
+    destruct (r_lindex s' (rh_key h) _) as [cur|]; [|split; [reflexivity|exact Ha]].
+    destruct (lua_tonum cur) as [c|]; [|split; [reflexivity|exact Ha]].
+    match goal with |- context [r_lset s (rh_key h) ?i ?v] =>
+      pose proof (r_lset_agree _ s s' (rh_key h) i v Ha Hk) as Hl;
+      destruct (r_lset s (rh_key h) i v) as [a|], (r_lset s' (rh_key h) i v) as [b|]; try contradiction end.
+    + split; [reflexivity|exact Hl].
+    + split; [reflexivity|exact Ha].
+Qed.
+
+Theorem hll_regs_local h : local (Kone (rh_key h)) (op_hll_regs h).
+Proof.
+  split; [intros s k _; reflexivity|].
+  intros s s' Ha. unfold op_hll_regs, rhll_regs. cbn [fst snd].
+  rewrite (r_list_agree _ s s' (rh_key h) Ha eq_refl). split; [reflexivity|exact Ha].
+Qed.
+End HLLLocal.
+
+Section BloomLocal.
+Variable bpos : N -> N -> bytes -> list N.
+Definition op_bloom_insert (h : rbloom) (x : bytes) : op (outcome bool) :=
+  fun s => let r := rbloom_insert bpos s h x in
+           (snd r, match fst r with Ok _ => Ok true | Err e => Err e | Panic e => Panic e end).
+Definition op_bloom_lookup (h : rbloom) (x : bytes) : op (outcome bool) := fun s => (s, rbloom_lookup bpos s h x).
+
+Lemma r_get_agree K s s' k : agree K s s' -> K k -> r_get s k = r_get s' k.
+Proof. intros Ha Hk. unfold r_get. rewrite (Ha k Hk). reflexivity. Qed.
+
+Lemma fold_setbit_frame key l : forall s k, k <> key ->
+  sget (fold_left (fun st i => r_setbit1 st key i) l s) k = sget s k.
+Proof.
+  induction l as [|a t IH]; intros s k Hk; cbn [fold_left]; [reflexivity|].
+  rewrite IH by exact Hk. apply r_setbit1_frame. exact Hk.
+Qed.
+
+Lemma fold_setbit_agree key l : forall s s', agree (Kone key) s s' ->
+  agree (Kone key) (fold_left (fun st i => r_setbit1 st key i) l s) (fold_left (fun st i => r_setbit1 st key i) l s').
+Proof.
+  induction l as [|a t IH]; intros s s' Ha; cbn [fold_left]; [exact Ha|]. apply IH.
+  intros k Hk. unfold Kone in Hk. subst k. unfold r_setbit1, r_set. rewrite !sget_sset_same.
+  rewrite (r_get_agree _ s s' key Ha eq_refl). reflexivity.
+Qed.
+
+Theorem bloom_insert_local h x : local (Kone (rb_key h)) (op_bloom_insert h x).
+Proof.
+  split.
+  - intros s k Hk. unfold op_bloom_insert, rbloom_insert. destruct (rb_nil h); cbn [fst snd]; [reflexivity|].
+    apply fold_setbit_frame. exact Hk.
+  - intros s s' Ha. unfold op_bloom_insert, rbloom_insert. destruct (rb_nil h); cbn [fst snd]; [split; [reflexivity|exact Ha]|].
+    split; [reflexivity|]. apply fold_setbit_agree. exact Ha.
+Qed.
+
+Theorem bloom_lookup_local h x : local (Kone (rb_key h)) (op_bloom_lookup h x).
+Proof.
+  split; [intros s k _; reflexivity|].
+  intros s s' Ha. unfold op_bloom_lookup, rbloom_lookup. cbn [fst snd]. split; [|exact Ha].
+  destruct (bpos (rb_size h) (rb_k h) x) as [|p ps]; [reflexivity|]. destruct (rb_nil h); [reflexivity|].
+  f_equal. assert (Hg : forall i, r_getbit s (rb_key h) i = r_getbit s' (rb_key h) i) by (intros i; unfold r_getbit; rewrite (r_get_agree _ s s' (rb_key h) Ha eq_refl); reflexivity).
+  generalize (p :: ps) as l. induction l as [|a t IHl]; [reflexivity|]. cbn [forallb]. rewrite Hg, IHl. reflexivity.
+Qed.
+End BloomLocal.
